@@ -214,7 +214,7 @@ func sentinelForms(v *Val, inst int) [][]byte {
 			add(fmt.Sprintf("%x", parts[0]))
 			add(fmt.Sprintf("%X", parts[0]))
 		}
-	case KInt, KNamedInt:
+	case KInt, KNamedInt, KPanicRuntime, KAnonTagged:
 		n := unsafeInt(v.ID, inst)
 		add(fmt.Sprint(n))
 		add(fmt.Sprintf("%x", n))
@@ -489,7 +489,7 @@ func streamEnvelopes(rep *Report, tier string, seed uint64) {
 					// Go-syntax rendering puts the type name (safe text by design) around the address
 					valid = false
 				}
-				if v.hasKind(KNilMapStringer, KNilSliceError, KNilFuncStringer, KMapIfaceKey, KMapStructKey, KMapSortKeys, KPtrStruct, KPtrRegStruct, KStrSlice, KIntArr, KMapKeyed, KRegStruct, KByteArr, KBytes, KComplex, KNilStringer, KGoStringer) && !declaredSafe {
+				if v.hasKind(KNilMapStringer, KNilSliceError, KNilFuncStringer, KMapIfaceKey, KMapStructKey, KMapSortKeys, KAnonTagged, KPtrStruct, KPtrRegStruct, KStrSlice, KIntArr, KMapKeyed, KRegStruct, KByteArr, KBytes, KComplex, KNilStringer, KGoStringer) && !declaredSafe {
 					// composite renderings: structural punctuation is written as safe text by design
 					valid = false
 				}
@@ -1297,6 +1297,18 @@ func streamRoutes(rep *Report, tier string, seed uint64) {
 					}
 					if got := mergeAdj([]byte(viaF)); !bytes.Equal(got, m) {
 						orc = append(orc, fmt.Sprintf("C16:SafePrinter route (SafeFormat) differs: %q vs %q", got, m))
+					}
+					// the SafeFormat method is reached under an arbitrary directive (flags, width, precision of the
+					// *outer* verb are no business of the nested call), at top level and after a sibling in a slice
+					od := []string{"%v", "%+v", "%#v", "%8v", "%-8v", "%08v", "%.1v", "% v", "%s", "%d", "%+x", "%12.3q", "%#-9.2s", "%[1]v"}[r.Intn(14)]
+					if got := mergeAdj([]byte(redact.Sprintf(od, viaSF{c.f, args}))); !bytes.Equal(got, m) {
+						orc = append(orc, fmt.Sprintf("C16:SafePrinter route (SafeFormat reached under %s) differs: %q vs %q", od, got, m))
+					}
+					{
+						want := append(append([]byte("[seven "), m...), ']')
+						if got := mergeAdj([]byte(redact.Sprintf("%v", []interface{}{redact.Safe("seven"), viaSF{c.f, args}}))); !bytes.Equal(got, mergeAdj(want)) {
+							orc = append(orc, fmt.Sprintf("C16:SafePrinter route (SafeFormat in a slice) differs: %q vs %q", got, want))
+						}
 					}
 				}); pmR != "" {
 					orc = append(orc, "C16:the S-variant returns but another route panics: "+pmR)
